@@ -368,7 +368,10 @@ def c4(rep, cov, tier):
                 continue
             n += 1
             t = tb[lab["start"]:lab["end"]].decode("utf-8", "replace").strip().lower()
-            if t not in on:
+            # the label may be the name of a declaration, or of a variable / element (e<j>, f<j>: of type N<j>); it is judged
+            # by the declarations it names: at least one of them is on a cycle (a label that names none is not judged)
+            named = set(int(x) for x in re.findall(r"(?<![a-z0-9_])[nef](\d+)(?![a-z0-9_])", t))
+            if named and not (named & set(g["on_cycle"])):
                 rep.add("recursion-label-names-a-declaration-that-is-not-on-a-cycle:%s" % kind, labels={"recursion", "real:" + kind},
                         detail={"edges": g["edges"], "on_cycle": g["on_cycle"], "labelled_text": t}, replay={"text": text})
     cov["c4_recursion_labels_checked"] = n
